@@ -8,6 +8,7 @@ import (
 	"math/rand"
 	"regexp"
 	"sort"
+	"strconv"
 	"strings"
 	"sync"
 
@@ -303,18 +304,65 @@ func run(c *lib.Ctx) error {
 		}(s)
 	}
 	wg.Wait()
-	var terms []string
-	var defs strings.Builder
+	var terms, termsP []string
+	var defs, defsP strings.Builder
 	repName := map[string]string{}
+	repNameP := map[string]string{}
 	distinct := map[string]bool{}
 	n := 0
 	for si, s := range sweeps {
 		evalSweep(c, s, si, distinct, func(o *obs) {
 			// correspondence case: publishTime and live edge of the model
-			if s.cfg.Mode == "number" || s.stopS > 0 || strings.Contains(s.cfg.Extra, "periods") || o.mo.Status != 200 || !sameGrid(s.a) {
+			if s.cfg.Mode == "number" || s.stopS > 0 || o.mo.Status != 200 || !sameGrid(s.a) {
 				return
 			}
 			ref := s.a.Ref()
+			if strings.Contains(s.cfg.Extra, "periods") {
+				// multi-period sweep: publishTime (closed form and splitPeriod-based) and, per Period, number and
+				// first / last listed segment of the reference adaptation set (theories/PublishPeriods.v)
+				pph := int64(0)
+				for _, e := range strings.Split(s.cfg.Extra, "/") {
+					if strings.HasPrefix(e, "periods_") {
+						_, _ = fmt.Sscanf(e, "periods_%d", &pph)
+					}
+				}
+				if pph <= 0 || o.mo.MUPms <= 0 {
+					return
+				}
+				name, ok := repNameP[s.a.Path]
+				if !ok {
+					name = fmt.Sprintf("rep_%d", len(repNameP))
+					repNameP[s.a.Path] = name
+					fmt.Fprintf(&defsP, "Definition %s : rep := %s.\n", name, lib.CoqRep(ref.VodRep))
+				}
+				var pvs []string
+				for _, p := range o.mo.Periods {
+					nr := int64(-999999)
+					if strings.HasPrefix(p.ID, "P") {
+						if v, err := strconv.ParseInt(p.ID[1:], 10, 64); err == nil {
+							nr = v
+						}
+					}
+					f, l, n := int64(-1), int64(-1), 0
+					for _, as := range p.AS {
+						isRef := false
+						for _, id := range as.RepIDs {
+							if id == ref.ID {
+								isRef = true
+							}
+						}
+						if isRef && len(as.Timeline) > 0 {
+							f, l, n = as.Timeline[0].T, as.Timeline[len(as.Timeline)-1].T, len(as.Timeline)
+						}
+					}
+					pvs = append(pvs, fmt.Sprintf("(%s, (%s, %s, %d))", lib.Zs(nr), lib.Zs(f), lib.Zs(l), n))
+				}
+				id := len(termsP)
+				termsP = append(termsP, fmt.Sprintf("{| c_id := %d; k_rep := %s; k_loopMS := %d; k_cfg := %s; k_now := %d; k_tsbdMS := %d; k_atoMS := %d; k_pph := %d; k_segDurMS := %d; o_publishMS := %d; o_periods := [%s] |}",
+					id+1000000, name, s.a.LoopMS, s.cfg.CoqCfg(), o.now, o.mo.TSBDms, max64(s.cfg.AtoMS, 0), pph, o.mo.MUPms, o.mo.PublishMS, strings.Join(pvs, "; ")))
+				c.Res.Inputs[fmt.Sprint(id+1000000)] = s.in(o, "model-periods")
+				return
+			}
 			name, ok := repName[s.a.Path]
 			if !ok {
 				name = fmt.Sprintf("rep_%d", len(repName))
@@ -329,7 +377,7 @@ func run(c *lib.Ctx) error {
 		n += len(s.obs)
 	}
 	c.Res.Evaluations = n
-	c.Res.ModelCases = len(terms)
+	c.Res.ModelCases = len(terms) + len(termsP)
 	c.Res.DistinctNontrivial = len(distinct)
 	c.Res.Notes = append(c.Res.Notes, pairs.Summary())
 	c.Res.Rule = fmt.Sprintf("%d sweeps (bundled assets x sampled {Timeline-Time, Timeline-Number, Number} x start {0,30,1.6e9} x tsbd {default,0,1,10,60,61} x availabilityTimeOffset {0, 1/4 segment, random} x {no stop, stop time, periods_60}) of ordered instants: for %d+ consecutive segments the millisecond before, at and after the segment becomes available and leaves the time-shift window, stream start, around the stop time; relations checked over every ordered pair of a sweep; distinct = distinct (configuration, MPD content) pairs seen", len(sweeps), span)
@@ -348,6 +396,14 @@ func run(c *lib.Ctx) error {
 		}
 		c.WriteCases(fmt.Sprintf("cases_C05_%d.v", sidx),
 			lib.CasesFile("From Verif Require Import GoSem Timeline CorrC05.", "c05case", defs.String(), terms[sidx*shard:e], "model_view"))
+	}
+	for sidx := 0; sidx*shard < len(termsP); sidx++ {
+		e := (sidx + 1) * shard
+		if e > len(termsP) {
+			e = len(termsP)
+		}
+		c.WriteCases(fmt.Sprintf("cases_C05P_%d.v", sidx),
+			lib.CasesFile("From Verif Require Import GoSem Timeline Periods PublishPeriods CorrC05P.", "c05pcase", defsP.String(), termsP[sidx*shard:e], "model_view"))
 	}
 	return nil
 }
